@@ -18,7 +18,7 @@ structure EState where
   l : Local
   c : Cat
 
-def init : EState := ⟨⟨0, "", ""⟩, Local.empty, Cat.empty⟩
+def init : EState := ⟨{ nodeVal := 0, cfgTok := "", userTok := "" }, Local.empty, Cat.empty⟩
 
 /-! ### decoding -/
 
@@ -113,9 +113,15 @@ def encEnt {δ : Type} (encD : δ → String) (p : Id × Ent δ) : String :=
   | .ghost b => "!".intercalate [encS p.1, "G", encBool b]
   | .ent d tok loc b del => "!".intercalate [encS p.1, "E", encD d, encS tok, encBool loc, encBool b, encBool del]
 
+/-- a check record also shows whether its defer timer is armed -/
+def encChkEnt (l : Local) (p : Id × Ent ChkDef) : String :=
+  match p.2 with
+  | .ghost _ => encEnt encChkDef p
+  | .ent .. => encEnt encChkDef p ++ "!" ++ encBool (l.armed p.1)
+
 def dump (l : Local) (c : Cat) : String :=
   let ls := (sortByKey l.svcs).map (encEnt encSvcDef)
-  let lc := (sortByKey l.chks).map (encEnt encChkDef)
+  let lc := (sortByKey l.chks).map (encChkEnt l)
   let cs := (sortByKey c.svcs).map fun p => encS p.1 ++ "!" ++ encSvcDef p.2
   let cc := (sortByKey c.chks).map fun p => encS p.1 ++ "!" ++ encChkDef p.2
   let cn := match c.node with | none => "-" | some v => toString v
@@ -137,8 +143,17 @@ def step (s : EState) (toks : List String) : EState × String :=
   match toks with
   | ["reset", v, ct, ut] =>
     match v.toNat?, decS ct, decS ut with
-    | some v, some ct, some ut => ({ cfg := ⟨v, ct, ut⟩, l := Local.empty, c := Cat.empty }, "ok")
+    | some v, some ct, some ut => ({ cfg := { nodeVal := v, cfgTok := ct, userTok := ut }, l := Local.empty, c := Cat.empty }, "ok")
     | _, _, _ => (s, "bad-op")
+  | ["reset", v, ct, ut, cui] =>
+    match v.toNat?, decS ct, decS ut, decBool cui with
+    | some v, some ct, some ut, some cui =>
+      ({ cfg := { nodeVal := v, cfgTok := ct, userTok := ut, cui := cui }, l := Local.empty, c := Cat.empty }, "ok")
+    | _, _, _, _ => (s, "bad-op")
+  | ["fire", k] =>
+    match decS k with
+    | some k => out { s with l := fire s.l k } "ok"
+    | _ => (s, "bad-op")
   | ["addsvc", id, d, tok, loc, cs] =>
     match decS id, decSvcDef d, decS tok, decBool loc, (decList cs).mapM decChkItem with
     | some id, some d, some tok, some loc, some cs =>
@@ -165,7 +180,7 @@ def step (s : EState) (toks : List String) : EState × String :=
     | _ => (s, "bad-op")
   | ["updchk", k, st] =>
     match decS k, st.toNat? with
-    | some k, some st => out { s with l := updChk s.l k st } "ok"
+    | some k, some st => out { s with l := updChk s.cfg.cui s.l k st } "ok"
     | _, _ => (s, "bad-op")
   | ["dsvc", id, d] =>
     match decS id, decSvcDef d with
